@@ -1346,6 +1346,8 @@ pub struct HistoryIterator<'a> {
 	first_visible_seen: bool,
 	latest_is_hard_delete: bool,
 	barrier_seen: bool, // True once we hit HARD_DELETE or REPLACE
+	/// (trailer, timestamp) of the previous entry examined for the current user key
+	last_version: Option<(u64, u64)>,
 
 	// === Backward iteration state (buffered) ===
 	backward_buffer: Vec<BufferedEntry>,
@@ -1384,6 +1386,7 @@ impl<'a> HistoryIterator<'a> {
 			first_visible_seen: false,
 			latest_is_hard_delete: false,
 			barrier_seen: false,
+			last_version: None,
 			backward_buffer: Vec::new(),
 			backward_buffer_index: None,
 			ts_range,
@@ -1420,6 +1423,7 @@ impl<'a> HistoryIterator<'a> {
 		self.first_visible_seen = false;
 		self.latest_is_hard_delete = false;
 		self.barrier_seen = false;
+		self.last_version = None;
 	}
 
 	fn clear_backward_buffer(&mut self) {
@@ -1545,7 +1549,18 @@ impl<'a> HistoryIterator<'a> {
 				self.first_visible_seen = false;
 				self.latest_is_hard_delete = false;
 				self.barrier_seen = false;
+				self.last_version = None;
 			}
+
+			// The same version can be present in two sources at once: after a crash
+			// between the version-index update and the manifest switch of a flush, WAL
+			// replay puts into the memtable what the index already holds. List it once.
+			let this_version = (self.inner_key().trailer(), timestamp);
+			if self.last_version == Some(this_version) {
+				self.inner_next()?;
+				continue;
+			}
+			self.last_version = Some(this_version);
 
 			// Skip invisible versions
 			if seq_num > self.snapshot_seq_num {
@@ -1694,7 +1709,10 @@ impl<'a> HistoryIterator<'a> {
 
 			// Versions outside the timestamp range are collected too: a hard delete or a
 			// replace erases everything older whether or not it lies in the queried range.
-			if visible {
+			// (the same version may come from two sources, see skip_to_valid_forward)
+			let duplicate =
+				versions.last().is_some_and(|v: &VersionInfo| v.encoded_key == key_ref.encoded());
+			if visible && !duplicate {
 				versions.push(VersionInfo {
 					is_hard_delete: key_ref.is_hard_delete_marker(),
 					is_replace: key_ref.is_replace(),
